@@ -117,6 +117,10 @@ func (e *mEnv) apply(ctx context.Context, ms *MetadataStore, op mOp) error {
 		_, err = ms.GroupLeave(ctx, e.g1pk)
 	case "credential":
 		_, err = ms.SendAccountVerifiedCredentialAdded(ctx, &protocoltypes.AccountVerifiedCredentialRegistered{Identifier: fmt.Sprintf("id-%d", op.Variant), Issuer: "issuer", RegistrationDate: 1, ExpirationDate: 2})
+	case "replicating":
+		_, err = ms.SendGroupReplicating(ctx, "https://auth.example", "replication.example")
+	case "app-meta":
+		_, err = ms.SendAppMetadata(ctx, []byte("app"))
 	default:
 		panic("unknown op " + op.Kind)
 	}
